@@ -628,6 +628,14 @@ SPECIALS = ['/a/{p:path}/b', '/a/b/{p:path}x', '/a/{x1}/b', '/a/b/c', '/{x0}/{x1
             '/{x0:int(min=0)}', '/{x0:int(max=0)}', '/{x0:float(min=0, max=0)}', '/r/{x1}',
             '/r/{y1:int(min=0)}to{w1:int(min=0)}', '/{y0:int(min=0, max=0)}to{w0:int(max=0)}',
             '/{y0:float(min=0)}_{w0:float(max=0.0)}', '/r/{y1:float(min=-0.0)}to{w1:int(2, min=0, max=0)}']
+REFUSED_SPECIALS = [
+            # multi-field segments with 2-3 converter fields and a multi-segment converter at every position
+            # (expected to be refused; if one is accepted, the lookups that follow must still not fail)
+            '/{p0:path}.{y0:int}', '/{y0:int}.{p0:path}', '/f/{y1:int}.{w1:int}.{p1:path}',
+            '/f/{y1:int}.{p1:path}.{w1:int}', '/{p0:path}.{y0:int}.{w0:float}', '/{y0:uuid}_{p0:rest}',
+            '/{y0:float}_{w0:int}_{p0:rest}', '/f/{y1:int}-{p1:rest}-{w1:float}', '/{y0}.{w0:int}.{p0:path}',
+            '/f/{y1:int(min=0)}.{w1:uuid}.{p1:path}/g']
+REFUSED_PARTNERS = ['/f/{x1}', '/f/g', '/{x0}/g', '/f/{y1:int}.{w1}']
 
 PAIR_SHAPES = {
     'quick': ['a', 'ab', 'x', 'xint', 'ay', 'y-w', 'path', 'pathx'],
@@ -666,13 +674,25 @@ def exhaustive(rec):
     for pair in itertools.product(T2, repeat=2):
         one(list(pair), lean2)
     rec.count('exhaustive.pairs-done')
+    # partners of the specials: the whole pair vocabulary (thorough) / its depth-1 templates plus the
+    # depth-2 templates over a 4-shape core (quick)
+    core = set(templates_over(['a', 'x', 'ay', 'path']))
+    partners = T2 if tier == 'thorough' else [t for t in T2 if t.count('/') == 1 or t in core]
     for s in SPECIALS:
-        for t in T2:
+        for t in partners:
             one([s, t], True)
             one([t, s], True)
     for s1 in SPECIALS:
         for s2 in SPECIALS:
             one([s1, s2], True)
+    shallow = [t for t in T2 if t.count('/') == 1] + REFUSED_PARTNERS
+    for s in REFUSED_SPECIALS:
+        one([s], False)
+        for t in shallow:
+            one([s, t], True)
+            one([t, s], True)
+            one([t, s, t.rstrip('/') + '/h'], True)       # a further add forces a recompile
+    rec.count('exhaustive.refused-specials-done')
     T3 = templates_over(TRIPLE_SHAPES[tier])
     for triple in itertools.product(T3, repeat=3):
         one(list(triple), True)
@@ -768,7 +788,7 @@ class Gen:
         """A template intended to be refused, with the reason it was built for."""
         rng = self.rng
         kinds = ['dup-field', 'unknown-conv', 'missing-conv', 'bad-ident', 'whitespace', 'bad-conv-args',
-                 'path-not-last', 'path-in-complex']
+                 'path-not-last', 'path-in-complex', 'path-among-converters']
         ctx = {}
         for t in accepted:
             segs = M.split_template(t)
@@ -815,6 +835,16 @@ class Gen:
             if self.orphaning and rng.random() < 0.6:
                 prefix = prefix + fresh_prefix
             tail = [rng.choice(['{pp:path}x', 'x{pp:rest}', '{pp:path}{qq}', '{qq}.{pp:path}'])]
+        elif kind == 'path-among-converters':
+            # 2-3 converter-carrying fields in one segment, the multi-segment one at a random position
+            others = ['{e%d:int}', '{g%d:float}', '{h%d:uuid}', '{i%d:int(min=0)}', '{j%d}', '{k%d:veto}']
+            rng.shuffle(others)
+            fields = [o % lv for o in others[:rng.randint(1, 2)]]
+            fields.insert(rng.randint(0, len(fields)), rng.choice(['{pp:path}', '{pp:rest}']))
+            sep = rng.choice(['.', '-', '_', 'to'])
+            tail = [rng.choice(['', 'v']) + sep.join(fields)]
+            if rng.random() < 0.3:
+                tail.append(rng.choice(['g', '{q}']))
         elif kind == 'child-of-path':
             segs, lv = rng.choice(ctx[kind])
             prefix, tail = segs[:lv + 1], [rng.choice(['c', '{cc}', ''])]
@@ -914,7 +944,7 @@ def random_history(rec, rng):
 # ---------------------------------------------------------------- entry points
 
 REJECT_FLOORS = ['dup-field', 'unknown-conv', 'missing-conv', 'bad-ident', 'whitespace', 'bad-conv-args',
-                 'path-not-last', 'path-in-complex', 'child-of-path', 'conflict-simple', 'conflict-complex']
+                 'path-not-last', 'path-in-complex', 'path-among-converters', 'child-of-path', 'conflict-simple', 'conflict-complex']
 
 
 def run(rec):
@@ -934,7 +964,8 @@ def run(rec):
         rec.note('exhaustive phase of shard 0 took %.1f s' % rec.elapsed())
     rng = rec.rng
     n = 0
-    while rec.budget_ok(0.9):
+    n_min = 60 if rec.tier == 'quick' else 100      # by count, so a loaded machine cannot starve the random phase
+    while n < n_min or rec.budget_ok(0.9):
         w = random_history(rec, rng)
         n += 1
         if n <= 2:
@@ -944,6 +975,7 @@ def run(rec):
     rec.floor('mon.find.after-rejected-add', 1000)
     rec.floor('exhaustive.pairs-done', rec.nshards)
     rec.floor('exhaustive.triples-done', rec.nshards)
+    rec.floor('exhaustive.refused-specials-done', rec.nshards)
     for k in ('bt.lit>cx', 'bt.lit>simple', 'bt.cx>simple', 'bt.cx>cx', 'bt.veto>simple', 'bt.lit>multi',
               'bt.cx>multi', 'bt.then-none'):
         rec.floor(k, 20)
